@@ -372,11 +372,21 @@ impl ManagePatches for PatchManager {
 
         // If a patch was never booted (next_boot_patch != last_booted_patch), we should delete
         // it here before setting next_boot_patch to the new patch.
-        if let (Some(last_boot_patch), Some(next_boot_patch)) = (
+        if let (Some(next_boot_patch), Some(last_boot_patch)) = (
             self.patches_state.next_boot_patch.clone(),
             self.patches_state.last_booted_patch.clone(),
         ) {
-            if last_boot_patch.number != next_boot_patch.number {
+            // Never delete the artifacts we just moved into place, nor those of a patch that
+            // is in the middle of booting (it becomes the last booted patch on success).
+            let is_currently_booting = self
+                .patches_state
+                .currently_booting_patch
+                .as_ref()
+                .is_some_and(|p| p.number == next_boot_patch.number);
+            if last_boot_patch.number != next_boot_patch.number
+                && next_boot_patch.number != patch_number
+                && !is_currently_booting
+            {
                 shorebird_info!(
                     "Patch {} was installed but never booted never booted, deleting artifacts",
                     next_boot_patch.number
